@@ -38,7 +38,16 @@ RULE = (
     "An observation that is explained by deleting one or two calls is reported as lost call(s) (kind names the window) "
     "and suppresses the dependent observations of that user. Non-trivial = a track call in the same instant (zero "
     "virtual time, 0..16 iterations) after the call that emptied the set, or a set emptied while a retry was pending, "
-    "or a call issued while an attempt was in flight, or a disconnect with a non-empty set; distinct = distinct case."
+    "or a call issued while an attempt was in flight, or a disconnect with a non-empty set; distinct = distinct case. "
+    "Second tier ('tier':'xfer', full logged-in SoulSeekClient, confirming server): <=12 ops from {add a download "
+    "(left VIRGIN, paused, or queued towards an unreachable peer) in one of 3 slots for u0/u1, abort, pause, queue, "
+    "remove, track_user/untrack_user with REQUESTED or FRIEND, server EOF/reset, re-login (Network.connect_server + "
+    "login)} with gaps 0..3 s; the TRANSFER reason is owned by the real TransferManager. At every quiescent point "
+    "while logged in (>= 1.5 s after the last op, >= 22 s after a re-login) and at the end (after a re-login if "
+    "needed), per user: reasons = user-API reasons since the last close | TRANSFER iff client.transfers holds an "
+    "unfinished transfer of that user; get_tracking_flags == reasons; the AddUser/RemoveUser frames of the *current* "
+    "server session alternate and end with AddUser iff reasons is non-empty; state TRACKED iff non-empty. Non-trivial "
+    "there = a re-login, TRANSFER combined with an API reason, or a removed transfer."
 )
 ASSUMPTIONS = [
     "every delivery has strictly positive latency (>= 0.5 ms); calls are issued by one driver task, so issue order is total",
@@ -54,6 +63,10 @@ ASSUMPTIONS = [
     "the full client avoids by pinging) does not close the connection during long delays",
     "task survival and the worker-exit-window hint in the violation kind read task names / private attributes for "
     "observation only",
+    "xfer tier: no write failures (listed finding), no calls within 0.3 s after the server closes; downloads never "
+    "finish on their own (peer without address), so 'unfinished' only changes through the generated ops; on a later "
+    "session one leading RemoveUser is tolerated (a reason added while disconnected, whose AddUser was silently not "
+    "sent, and removed again); no checkpoints while disconnected",
 ]
 BUDGET_S = {'quick': 120, 'thorough': 1500}
 
@@ -879,7 +892,7 @@ def _run_xfer_case(case) -> CaseResult:
 
         api = [0, 0]                 # user API reasons since the tracking state was last dropped
         slots = {}                   # slot -> Transfer
-        removed_unfinished = set()   # users that had an unfinished transfer removed
+        removed_users = set()        # users that had a transfer removed from the manager
         blamed = set()               # users with a reported violation: later observations are consequences
         logged_in = True
         login_time = loop.time()
@@ -918,10 +931,15 @@ def _run_xfer_case(case) -> CaseResult:
                             'after-relogin' if cur > 0 else 'first-session'), ctx))
                     elif diff == TRANSFER_BIT:
                         found.append(('C15/xfer:transfer-reason-kept:%s' % (
-                            'after-remove' if name in removed_unfinished else 'other'), ctx))
+                            'after-remove' if name in removed_users else 'other'), ctx))
                     else:
                         found.append(('C15/xfer:flags-differ', ctx))
                     continue
+                if cur > 0 and types[:1] == ['R']:
+                    # a reason added while disconnected (AddUser silently not sent: the 'send failure' regime) and
+                    # removed again is untracked on the new session: justified by a model transition, not flagged
+                    types = types[1:]
+                    labels.add('removeuser-for-attempt-made-while-disconnected')
                 alternating = all(k == ('A' if i % 2 == 0 else 'R') for i, k in enumerate(types))
                 tracked_on_server = bool(types) and types[-1] == 'A'
                 if not alternating:
@@ -969,9 +987,8 @@ def _run_xfer_case(case) -> CaseResult:
             elif kind == 'remove':
                 tr = slots.pop(op['slot'], None)
                 if tr is not None:
-                    if not tr.is_finalized():
-                        removed_unfinished.add(tr.username)
-                        labels.add('remove-unfinished')
+                    removed_users.add(tr.username)
+                    labels.add('remove-unfinished' if not tr.is_finalized() else 'remove-finished')
                     await lib('remove', tm.remove(tr))
             elif kind in 'tu':
                 flag = TrackingFlag(op['f'])
@@ -1139,7 +1156,10 @@ MANIFEST_ENTRY = {
                   'final flags and tracking state, and task survival after a server close. Iteration offsets around '
                   'worker exits, retry instants and disconnects are enumerated exhaustively in a small range; the rest '
                   'is sampled.',
-    'level_note': 'Trusted base: virtual loop, in-memory TCP (ordered, lossless, latency >= 0.5 ms), simulated server, '
+    'level_note': 'A second generated tier drives a full client with real TransferManager-owned TRANSFER reasons, '
+                  'user-API reasons, server disconnects and re-logins and compares flags, state and the current '
+                  "session's AddUser/RemoveUser frames with the reason-set model at every quiescent point. "
+                  'Trusted base: virtual loop, in-memory TCP (ordered, lossless, latency >= 0.5 ms), simulated server, '
                   'the model in checks/c15.py. Retry delays (10 s / 600 s, 10 s answer timeout) are pinned in the check. '
                   'Calls issued while the close is being processed are ties (either dropped or kept).',
 }
@@ -1169,6 +1189,12 @@ KNOWN_REPLAYS = {
             {'op': 't', 'u': 0, 'f': 3, 'gap': ['it', 0]}]},
     # untrack + track issued in the very iteration in which the retry timer fires: the already queued retry request
     # is executed after the fresh AddUser (a second AddUser; with failing attempts two retry chains from then on)
+    # TransferManager.remove() takes the transfer out of the list before a management cycle saw it finalized: the
+    # cycle only untracks users that still have (finished) transfers, so the TRANSFER reason is never dropped
+    'C15/xfer:transfer-reason-kept:after-remove': {
+        'tier': 'xfer', 'lat': 0.02, 'ops': [
+            {'op': 'add', 'slot': 0, 'u': 0, 'mode': 'paused', 'gap': 1.5},
+            {'op': 'remove', 'slot': 0, 'gap': 1.5}]},
     'C15/stale-retry-sent-after-untrack-and-retrack': {
         'lat': 0.02, 'full': False, 'beh': [[2, 0, 0], [0]], 'tail': 12.0, 'ops': [
             {'op': 't', 'u': 0, 'f': 1, 'gap': ['retry', 0]},
